@@ -1,4 +1,5 @@
 import Astm.Lemmas.Record
+import Astm.Model.Encodings
 
 namespace Astm
 
@@ -86,5 +87,212 @@ theorem ascii_lawful : Lawful ascii where
         have := List.all_eq_true.mp hall c hc; simpa using this
       rw [char_of_byte c (by omega)]; exact hc
     · simp [hall] at h
+
+
+/-! ### utf-8 (core `String.toUTF8` / `String.fromUTF8?`) -/
+
+theorem utf8_enc_nil : utf8.enc [] = .ok [] := by
+  simp [utf8, utf8Enc]
+
+theorem fromUTF8?_bytes (t : String) : String.fromUTF8? ⟨t.toByteArray.data⟩ = some t := by
+  have e : (⟨t.toByteArray.data⟩ : ByteArray) = t.toByteArray := rfl
+  rw [e]
+  unfold String.fromUTF8?
+  rw [dif_pos t.isValidUTF8]
+  rfl
+
+theorem utf8_roundtrip (s : Str) (b : Bytes) (h : utf8.enc s = .ok b) : utf8.dec b = .ok s := by
+  simp only [utf8, utf8Enc, Except.ok.injEq] at h
+  subst h
+  simp only [utf8, utf8Dec, String.toUTF8_eq_toByteArray, Array.toArray_toList]
+  rw [fromUTF8?_bytes]
+  simp
+
+theorem utf8_nonempty (s : Str) (b : Bytes) (h : utf8.enc s = .ok b) (hs : s ≠ []) : b ≠ [] := by
+  simp only [utf8, utf8Enc, Except.ok.injEq] at h
+  subst h
+  intro hb
+  have : (String.ofList s).toByteArray = ByteArray.empty := by
+    have : (String.ofList s).toByteArray.data = #[] := by simpa using hb
+    cases hq : (String.ofList s).toByteArray with | mk d => simp_all; rfl
+  rw [String.toByteArray_ofList] at this
+  exact hs (List.utf8Encode_eq_empty.mp this)
+
+theorem or_ge (a b : UInt8) : b.toNat ≤ (a ||| b).toNat := by
+  rw [UInt8.toNat_or]; exact Nat.right_le_or
+
+/-- a byte below 0x80 among the UTF-8 bytes of a character is that character -/
+theorem utf8EncodeChar_ascii (c : Char) (x : UInt8) (hx : x ∈ String.utf8EncodeChar c) (hlt : x.toNat < 128) :
+    Char.ofNat x.toNat = c := by
+  rcases Char.utf8Size_eq c with h | h | h | h
+  · rw [String.utf8EncodeChar_eq_singleton h] at hx
+    simp only [List.mem_singleton] at hx
+    subst hx
+    have hle : c.val ≤ 127 := Char.utf8Size_eq_one_iff.mp h
+    have hn : c.val.toNat ≤ 127 := by simpa using UInt32.le_iff_toNat_le.mp hle
+    have : c.val.toUInt8.toNat = c.val.toNat := by
+      simp only [UInt32.toNat_toUInt8]; omega
+    rw [this]
+    exact Char.ofNat_toNat c
+  · rw [String.utf8EncodeChar_eq_cons_cons h] at hx
+    simp only [List.mem_cons, List.not_mem_nil, or_false] at hx
+    rcases hx with rfl | rfl
+    · exact absurd (Nat.lt_of_le_of_lt (or_ge _ _) hlt) (by decide)
+    · exact absurd (Nat.lt_of_le_of_lt (or_ge _ _) hlt) (by decide)
+  · rw [String.utf8EncodeChar_eq_cons_cons_cons h] at hx
+    simp only [List.mem_cons, List.not_mem_nil, or_false] at hx
+    rcases hx with rfl | rfl | rfl
+    · exact absurd (Nat.lt_of_le_of_lt (or_ge _ _) hlt) (by decide)
+    · exact absurd (Nat.lt_of_le_of_lt (or_ge _ _) hlt) (by decide)
+    · exact absurd (Nat.lt_of_le_of_lt (or_ge _ _) hlt) (by decide)
+  · rw [String.utf8EncodeChar_eq_cons_cons_cons_cons h] at hx
+    simp only [List.mem_cons, List.not_mem_nil, or_false] at hx
+    rcases hx with rfl | rfl | rfl | rfl
+    · exact absurd (Nat.lt_of_le_of_lt (or_ge _ _) hlt) (by decide)
+    · exact absurd (Nat.lt_of_le_of_lt (or_ge _ _) hlt) (by decide)
+    · exact absurd (Nat.lt_of_le_of_lt (or_ge _ _) hlt) (by decide)
+    · exact absurd (Nat.lt_of_le_of_lt (or_ge _ _) hlt) (by decide)
+
+theorem utf8Encode_ascii (s : Str) (x : UInt8) (hx : x ∈ s.utf8Encode.data.toList) (hlt : x.toNat < 128) :
+    Char.ofNat x.toNat ∈ s := by
+  induction s with
+  | nil => simp at hx
+  | cons c l ih =>
+    rw [List.utf8Encode_cons, ByteArray.toList_data_append, List.utf8Encode_singleton,
+      List.toList_data_toByteArray] at hx
+    rcases List.mem_append.mp hx with h | h
+    · rw [utf8EncodeChar_ascii c x h hlt]; exact List.mem_cons_self
+    · exact List.mem_cons_of_mem _ (ih h)
+
+theorem utf8_lawful : Lawful utf8 where
+  enc_nil := utf8_enc_nil
+  roundtrip := utf8_roundtrip
+  nonempty := utf8_nonempty
+  ascii_reflect := by
+    intro s b h x hx hlt
+    simp only [utf8, utf8Enc, Except.ok.injEq] at h
+    subst h
+    rw [String.toUTF8_eq_toByteArray, String.toByteArray_ofList] at hx
+    exact utf8Encode_ascii s x hx hlt
+
+/-! ### cp1251 (table regenerated from Python's codec) -/
+
+theorem cp1251_len : cp1251Table.length = 256 := by decide +kernel
+theorem cp1251_low : (List.range 128).all (fun i => cp1251Table[i]? == some (some i)) = true := by decide +kernel
+
+theorem optMapM_spec {α β : Type} (f : α → Option β) : ∀ (l : List α) (r : List β), l.mapM f = some r →
+    List.length r = l.length ∧ ∀ i (h : i < l.length) (h' : i < r.length), f l[i] = some r[i] := by
+  intro l
+  induction l with
+  | nil => intro r h; simp at h; subst h; simp
+  | cons a as ih =>
+    intro r h
+    rw [List.mapM_cons] at h
+    cases hfa : f a with
+    | none => simp [hfa] at h
+    | some b =>
+      cases hr : as.mapM f with
+      | none => simp [hfa, hr] at h
+      | some bs =>
+        simp [hfa, hr] at h
+        subst h
+        obtain ⟨hl, hi⟩ := ih bs hr
+        refine ⟨by simp [hl], ?_⟩
+        intro i h1 h2
+        cases i with
+        | zero => simpa using hfa
+        | succ j => simpa using hi j (by simpa using h1) (by simpa using h2)
+
+theorem optMapM_inv {α β : Type} (f : α → Option β) (g : β → Option α) (hfg : ∀ a b, f a = some b → g b = some a) :
+    ∀ (l : List α) (r : List β), l.mapM f = some r → r.mapM g = some l := by
+  intro l
+  induction l with
+  | nil => intro r h; simp at h; subst h; simp
+  | cons a as ih =>
+    intro r h
+    rw [List.mapM_cons] at h
+    cases hfa : f a with
+    | none => simp [hfa] at h
+    | some b =>
+      cases hr : as.mapM f with
+      | none => simp [hfa, hr] at h
+      | some bs =>
+        simp [hfa, hr] at h
+        subst h
+        rw [List.mapM_cons]
+        simp [hfg a b hfa, ih bs hr]
+
+theorem cp1251_char (c : Char) (b : UInt8) (h : cp1251EncChar c = some b) :
+    cp1251DecByte b = some c ∧ cp1251Table[b.toNat]? = some (some c.toNat) := by
+  unfold cp1251EncChar at h
+  cases hi : cp1251Table.findIdx? (· == some c.toNat) with
+  | none => simp [hi] at h
+  | some i =>
+    simp only [hi, Option.map_some, Option.some.injEq] at h
+    obtain ⟨hlt, hp, _⟩ := List.findIdx?_eq_some_iff_getElem.mp hi
+    have hlt' : i < 256 := by rw [← cp1251_len]; exact hlt
+    have hb : b.toNat = i := by subst h; simp; omega
+    have ht : cp1251Table[i]? = some (some c.toNat) := by
+      rw [List.getElem?_eq_getElem hlt]; simpa using hp
+    refine ⟨?_, by rw [hb]; exact ht⟩
+    unfold cp1251DecByte
+    rw [hb, ht]
+    simp [Char.ofNat_toNat]
+
+theorem cp1251_lawful : Lawful cp1251 where
+  enc_nil := by simp [cp1251, cp1251Enc]
+  roundtrip := by
+    intro s b h
+    simp only [cp1251, cp1251Enc] at h
+    cases hm : s.mapM cp1251EncChar with
+    | none => simp [hm] at h
+    | some b' =>
+      simp only [hm, Except.ok.injEq] at h
+      subst h
+      simp only [cp1251, cp1251Dec]
+      rw [optMapM_inv cp1251EncChar cp1251DecByte (fun a b h => (cp1251_char a b h).1) s b' hm]
+  nonempty := by
+    intro s b h hs
+    simp only [cp1251, cp1251Enc] at h
+    cases hm : s.mapM cp1251EncChar with
+    | none => simp [hm] at h
+    | some b' =>
+      simp only [hm, Except.ok.injEq] at h
+      subst h
+      have := (optMapM_spec _ s b' hm).1
+      intro hb; subst hb
+      simp at this
+      exact hs (List.length_eq_zero_iff.mp this.symm)
+  ascii_reflect := by
+    intro s b h x hx hlt
+    simp only [cp1251, cp1251Enc] at h
+    cases hm : s.mapM cp1251EncChar with
+    | none => simp [hm] at h
+    | some b' =>
+      simp only [hm, Except.ok.injEq] at h
+      subst h
+      obtain ⟨hl, hi⟩ := optMapM_spec _ s b' hm
+      obtain ⟨i, hib, rfl⟩ := List.getElem_of_mem hx
+      have his : i < s.length := by omega
+      have := (cp1251_char s[i] b'[i] (hi i his hib)).2
+      have hlow := List.all_eq_true.mp cp1251_low b'[i].toNat (by simpa using hlt)
+      simp only [beq_iff_eq] at hlow
+      rw [hlow] at this
+      simp only [Option.some.injEq] at this
+      rw [this, Char.ofNat_toNat]
+      exact List.getElem_mem his
+
+/-- every encoding name the driver / the harness uses is a lawful encoding -/
+theorem encodingOf_lawful (name : String) (E : Encoding) (h : encodingOf name = some E) : Lawful E := by
+  unfold encodingOf at h
+  split at h
+  · cases h; exact latin1_lawful
+  · split at h
+    · cases h; exact ascii_lawful
+    · split at h
+      · cases h; exact utf8_lawful
+      · split at h
+        · cases h; exact cp1251_lawful
+        · cases h
 
 end Astm
